@@ -12,11 +12,70 @@ SHARD_TIMEOUT = {"quick": 240, "thorough": 1500}
 
 
 def plan(tier, seed):
-    return sse.scheme_shards(tier, per_scheme_quick=2, per_scheme_thorough=4, budget_quick=14, budget_thorough=420)
+    specs = sse.scheme_shards(tier, per_scheme_quick=2, per_scheme_thorough=4, budget_quick=14, budget_thorough=420)
+    # default-size configurations that the small grid never reaches: Pi2Lev's large case with B=b=B'=b'=64 needs a
+    # list of more than 4096 postings; SSE-1 with its default 2^16 array; a DP17 / CT14 / ANSS16 database of a few
+    # thousand postings (many levels)
+    specs.append({"name": "big-defaults", "kind": "big", "budget_s": 120 if tier == "quick" else 900,
+                  "rounds": 1 if tier == "quick" else 6})
+    return specs
+
+
+def run_big(spec, acc, ctx):
+    import copy
+    from vlib import gen
+    rng = ctx.rng
+    plans = []
+    for _ in range(spec["rounds"]):
+        plans += [("CJJ14.Pi2Lev", {}, [4097, 4096, 65, 64, 1]), ("CJJ14.Pi2Lev", {}, [rng.randint(4098, 9000), 3]),
+                  ("CGKO06.SSE1", {}, [rng.randint(1, 30) for _ in range(6)]),
+                  ("DP17.Pi", {"param_L": rng.choice([1, 2, 4])}, [2048, 1000, 513, 64, 7, 1, 1]),
+                  ("CT14.Pi", {}, [1024, 1023, 700, 31, 1]), ("ANSS16.Scheme3", {}, [2049, 1024, 255, 16, 3]),
+                  ("CJJ14.PiPtr", {}, [64 * 64 + 1, 4096, 63]), ("CJJ14.PiPack", {}, [64 * 40 + 1, 64, 65]),
+                  ("CJJ14.PiBas", {"param_lambda": 16, "prf_f_output_length": 16}, [3000, 1])]
+    for scheme, over, lens in plans:
+        if ctx.out_of_time():
+            break
+        cfg = gen.default_config(scheme)
+        cfg.update(over)
+        if cfg.get("param_identifier_size", 8) < 3:
+            cfg["param_identifier_size"] = 4
+        db, info = gen.db_from_lens(rng, scheme, cfg, lens, "big-defaults")
+        shadow = copy.deepcopy(db)
+        st = sse.Setup(scheme, cfg, db)
+        short = gen.SHORT[scheme]
+        acc.count("cases")
+        acc.count("big_default_cases")
+        for c in info.get("pi2lev_cases", []):
+            acc.add("pi2lev_cases", c)
+        if st.error is not None:
+            acc.violation(sse.setup_signature(scheme, st), f"{scheme} {st.phase} raised {type(st.error).__name__}: "
+                          f"{st.error} on a default-size database (list lengths {lens})",
+                          {"scheme": scheme, "cfg": cfg, "lens": lens})
+            continue
+        for w in shadow:
+            acc.count("searches.present")
+            acc.count(f"searches.present.{short}")
+            try:
+                got = st.search(w)
+            except Exception as e:
+                acc.violation(f"{short}:search-raised:big", f"{type(e).__name__}: {e} (list lengths {lens})",
+                              {"scheme": scheme, "cfg": cfg, "lens": lens})
+                continue
+            acc.count("postings_compared", len(shadow[w]))
+            if not sse.result_matches(scheme, got, shadow[w]):
+                acc.violation(f"{short}:wrong-result:{sse.diff_kind(scheme, got, shadow[w])}",
+                              f"{scheme} default-size database (list lengths {lens}): result of a list of "
+                              f"{len(shadow[w])} differs", {"scheme": scheme, "cfg": cfg, "lens": lens})
+        acc.add("distinct", sse.case_fp(scheme, "big", shadow))
+        acc.add("big_schemes", scheme)
 
 
 def run_shard(spec, acc, ctx):
-    eng.run(spec, acc, ctx, "present")
+    if spec.get("kind") == "big":
+        run_big(spec, acc, ctx)
+    else:
+        eng.run(spec, acc, ctx, "present")
 
 
 def replay(case, acc, ctx):
@@ -40,6 +99,9 @@ def replay(case, acc, ctx):
 
 def finish(m, tier, seed):
     cov, inc = eng.finish(m, tier, "present", 50)
+    cov["default_size_cases"] = m["counters"].get("big_default_cases", 0)
+    if len(m["sets"].get("big_schemes", [])) < 8:
+        inc.append("default-size workloads did not cover the schemes")
     return {"coverage": cov, "inconclusive": inc,
             "assumptions": ["databases are valid by the definition in the property and generated for the configuration",
                             "keys come from the schemes' own KeyGen (os.urandom); at most 40 keywords searched per database"]}
